@@ -76,7 +76,7 @@ class Interp(CallMixin):
     def __init__(self, model: SrcModel, chooser: Optional[Chooser] = None, *,
                  summaries: Optional[Dict[str, Callable]] = None,
                  ext_handlers: Optional[Dict[str, Callable]] = None,
-                 opaque_calls: bool = False, max_steps: int = 200000):
+                 opaque_calls: bool = False, max_steps: int = 5000000):
         self.model = model
         self.ch = chooser or Chooser([])
         self.summaries = summaries or {}
